@@ -227,6 +227,8 @@ func (u UnitBytes) MarshalJSON() ([]byte, error) {
 			}
 			seen[envFile.Path] = true
 			vars, err := loadEnvFile(envFile, resolve)""", "a repeated env_file path is skipped whatever its required flag (REFS)"),
+ ("C04", "port-key-typed-verbs", "K", "override/uncity.go", """		return fmt.Sprintf("%v:%v:%v/%v", host, published, target, protocol), nil""", """		return fmt.Sprintf("%s:%s:%d/%s", host, published, target, protocol), nil""", "port key depends on the YAML type of published/target (FMTVERB)"),
+ ("C05", "tracker-key-of-base", "K", "loader/extends.go", """	tracker, err = tracker.Add(filename, name)""", """	tracker, err = tracker.Add(filename, ref)""", "chain recorded under the base's name: acyclic diamonds collide (CYC tracker key)"),
  ("C13", "stop-one-early", "K", "graph/traversal.go", """				if expect == 0 {
 					return nil
 				}
